@@ -42,9 +42,14 @@ func (e *Env) resolveBase(name string) (mrepo.ID, error) {
 	if name == "" {
 		return "", errNotFound
 	}
-	if strings.ContainsAny(name, "@{}*?[\\ \t\n") && name != "@" {
-		// reflog syntax, globs, or names git's ref machinery treats specially
+	if name != "@" && (strings.Contains(name, "@{") || strings.ContainsAny(name, "{}")) {
+		// reflog syntax and the like
 		return "", ErrUnsupported
+	}
+	if strings.ContainsAny(name, "*?[\\ \t\n\x7f") || strings.Contains(name, "..") || strings.HasSuffix(name, ".lock") {
+		// characters check-ref-format forbids: no reference of that name can
+		// exist, and it is not a hex id either
+		return "", errNotFound
 	}
 	if len(name) == 40 && isHex(name) {
 		return mrepo.ID(strings.ToLower(name)), nil
